@@ -604,12 +604,19 @@ def _c02_later_import(rec):
         return collections.Counter(n.value.id for n in ast.walk(t) if isinstance(n, ast.Attribute) and isinstance(n.value, ast.Name))
 
     introduced = {name for name, k in dotted(ta).items() if k > dotted(tb).get(name, 0) and name in ("heapq", "collections", "np", "numpy", "pd", "pandas", "itertools", "functools", "math")}
-    top = set()
-    for st in ta.body:
-        if isinstance(st, (ast.Import, ast.ImportFrom)):
-            top |= {(a.asname or a.name).split(".")[0] for a in st.names}
-        top |= {n.id for n in ast.walk(st) if isinstance(n, ast.Name) and isinstance(n.ctx, ast.Store)} if not isinstance(st, (ast.FunctionDef, ast.AsyncFunctionDef, ast.ClassDef)) else set()
-    return bool(introduced - top)
+    for name in introduced:
+        first_use = min(n.lineno for n in ast.walk(ta) if isinstance(n, ast.Attribute) and isinstance(n.value, ast.Name) and n.value.id == name)
+        bound_before = False  # at module level, above the first use (an import further down, or inside a function, does not help the use)
+        for st in ta.body:
+            if st.lineno >= first_use:
+                break
+            if isinstance(st, (ast.Import, ast.ImportFrom)) and name in {(a.asname or a.name).split(".")[0] for a in st.names}:
+                bound_before = True
+            if not isinstance(st, (ast.FunctionDef, ast.AsyncFunctionDef, ast.ClassDef)) and any(isinstance(n, ast.Name) and isinstance(n.ctx, ast.Store) and n.id == name for n in ast.walk(st)):
+                bound_before = True
+        if not bound_before:
+            return True
+    return False
 
 
 @classifier("defaultdict-repr-and-membership")
